@@ -472,9 +472,11 @@ func c23(c *an.Check) {
 	// OWNCHECK: in Send, the local flag "my message occupies the outgoing slot" may only be cleared when the slot is
 	// known to be empty or to hold another message; otherwise an epoch change makes Send forget its own in-flight
 	// message and wait forever for a slot that only it can free.
+	clientCloseOnExit(c)
 	ownCheck(c)
 	// the attach-order rule (shared with C22): a peer that has just attached must evaluate the session state before sleeping
 	c22AttachOrder(c, h)
+	epochSections(c)
 	releaseGates(c, "both")
 	serverLockset(c)
 	clientLockset(c)
@@ -934,6 +936,7 @@ func c25(c *an.Check) {
 			return "p1 >= p2 but the key is not (p2,p1) with flag false"
 		})
 	}
+	epochSections(c)
 	releaseGates(c, "both")
 	serverLockset(c)
 }
@@ -1014,6 +1017,76 @@ func releaseGates(c *an.Check, which string) {
 			}})
 		}
 	}
+}
+
+// clientCloseOnExit: the client's per-peer session routine arms, before its read loop, a deferred call that runs the
+// close handler (the critical section that forgets the open epoch and empties both mailboxes). Without it a stream
+// failure leaves the stale epoch behind; when the relay's epoch counter restarts at the same number the open handler
+// sees "nothing changed" and a pending Send waits forever.
+func clientCloseOnExit(c *an.Check) {
+	p := c.P
+	ex := p.Func(cliPkg, "clientPeerTracker", "execute")
+	openF := fv(c, cliPkg, "clientPeerTracker", "open")
+	if ex == nil || openF == nil {
+		c.Undecided("MUSTCALL", "signaling client runs its close handler on every exit", nil, "unresolved anchor")
+		return
+	}
+	// the close handler: the literal (possibly nesting a HoldLock literal) that stores nil to open
+	var closeFns []*ssa.Function
+	for _, g := range an.WithClosures(ex) {
+		if g.Parent() != ex {
+			continue
+		}
+		for _, h := range an.WithClosures(g) {
+			if storesField(h, openF, isNilConst) {
+				closeFns = append(closeFns, g)
+				break
+			}
+		}
+	}
+	okD, why := false, "close handler not found"
+	if len(closeFns) == 1 {
+		why = "no deferred call in the session routine runs the close handler: a failing stream leaves the open epoch and both mailboxes as they were"
+		callsClose := func(g *ssa.Function) bool {
+			for _, b := range g.Blocks {
+				for _, ins := range b.Instrs {
+					call, ok := ins.(*ssa.Call)
+					if !ok {
+						continue
+					}
+					v := call.Call.Value
+					if u, isLoad := v.(*ssa.UnOp); isLoad {
+						v = u.X
+					}
+					if fvv, isFV := v.(*ssa.FreeVar); isFV {
+						v = p.Binding(fvv)
+						if a, isAlloc := v.(*ssa.Alloc); isAlloc {
+							v = p.SingleStore(a)
+						}
+					}
+					if mc, isMC := v.(*ssa.MakeClosure); isMC && mc.Fn == ssa.Value(closeFns[0]) {
+						return true
+					}
+				}
+			}
+			return false
+		}
+		for _, b := range ex.Blocks {
+			for _, ins := range b.Instrs {
+				d, ok := ins.(*ssa.Defer)
+				if !ok {
+					continue
+				}
+				switch v := d.Call.Value.(type) {
+				case *ssa.MakeClosure:
+					if v.Fn == ssa.Value(closeFns[0]) || callsClose(v.Fn.(*ssa.Function)) {
+						okD = true
+					}
+				}
+			}
+		}
+	}
+	c.Require(okD, "MUSTCALL", "signaling client runs its close handler on every exit of the session routine", ex, "", 1, "defer { …; handleClose() } armed in execute", why)
 }
 
 func ownCheck(c *an.Check) {
